@@ -95,6 +95,37 @@ def r8_maxwell_polarity(ctx):
             rep.note(f"C08.R8: {C}: signs not determinate (l_q: {sorted(s_l)}, damper column: {sorted(s_d)})")
 
 
+def r12_tau_rank(ctx):
+    """`contr.tau` has two writers: the constructor (whatever the user passes: for a one-input actuator a scalar or a scalar function) and
+    System.set_tau, which always stores a slice `tau(t)[contr.tauDOF]`, i.e. an ARRAY of ntau entries.  A reader that wraps `self.tau(t)` into a
+    new array (np.array([self.tau(t)])) produces la_tau of shape (1, 1) on the set_tau path and BaseActuator.Wla_tau_q's einsum raises: the
+    actuator Jacobian is unavailable.  Readers must be rank-agnostic: index an entry (`self.tau(t)[k]`, what PD / PID do) or normalise the shape
+    (np.reshape / np.atleast_1d / ravel)."""
+    rep = ctx.rep
+    sys_fn = ctx.repo.maybe("cardillo/system.py", "System.set_tau")
+    slices = bool(sys_fn) and any(isinstance(w, ast.Subscript) and norm_src(w.slice) == "contr.tauDOF" for w in ast.walk(sys_fn))
+    n = 0
+    for rel, mod in sorted(ctx.repo.modules.items()):
+        if not rel.startswith("cardillo/actuators/"):
+            continue
+        for q, fn in mod.defs().items():
+            if not isinstance(fn, ast.FunctionDef):
+                continue
+            for w in ast.walk(fn):
+                if isinstance(w, ast.Call) and norm_src(w.func) == "self.tau":
+                    n += 1
+                    par = getattr(w, "_parent", None)
+                    C = f"{rel}:{q}"
+                    if isinstance(par, (ast.List, ast.Tuple)) and isinstance(getattr(par, "_parent", None), ast.Call) \
+                            and (dotted(par._parent.func) or "").split(".")[-1] in ("array", "asarray", "hstack", "concatenate") and slices:
+                        rep.bad("C08.R12", C, par._parent, f"`{norm_src(par._parent)}` wraps the control input into a new array: System.set_tau stores `tau(t)[contr.tauDOF]`, an array, so "
+                                "la_tau becomes two-dimensional and Wla_tau_q (einsum 'ijk,j->ik') raises - the actuator Jacobian is unavailable after set_tau", f"{rel}:{w.lineno}")
+                    else:
+                        rep.ok("C08.R12", C, f"`{norm_src(par)[:60]}`: rank-agnostic use of the control input")
+    if n < 3:
+        raise AnalysisError(f"C08.R12: only {n} reads of self.tau(t) found in cardillo/actuators")
+
+
 def r9_angle_homogeneity(ctx):
     """Revolute's angle is a function of the ratio y/x of two projections of the body-2 joint axis e_a2 on body-1 axes: it does
     not change when the (non-orthonormal, off-manifold) basis A_IJ2 is scaled.  Its stated derivative l_q must then be of
@@ -155,6 +186,8 @@ def run(ctx):
                 raise AnalysisError(f"{ci.rel}:{cname}.{name} vanished")
             twobody.check_typing(rep, "C08.R6", f"{ci.rel}:{cname}.{name}", ci.rel, fn)
         twobody.check_polarity(rep, "C08.R7", ci, chain)
+    rep.rule("C08.R12", "actuators read their control input rank-agnostically (constructor passes scalars, System.set_tau array slices)", 3)
+    r12_tau_rank(ctx)
     rep.rule("C08.R9", "Revolute: angle and its q-derivative are homogeneous of degree 0 in each joint basis (K6)", 4)
     r9_angle_homogeneity(ctx)
     rep.rule("C08.R8", "MaxwellElement: damper-coordinate column has the opposite sign of the l_q term", 2)
@@ -167,6 +200,13 @@ def run(ctx):
         for p, d, mode, extra in (("l_dot", "l_dot_q", "q", None), ("l_dot", "l_dot_u", "u", None), ("l_dot", "W_l", "u", None), ("W_l", "W_l_q", "q", None)):
             c, fn = view.method(d)
             support.check(rep, "C08.R5", view, f"{ci.rel}:{cname}.{d}", ci.rel, p, d, mode, extra, lineno=getattr(fn, "lineno", 0))
+    for cname in ("Force", "B_Force", "Moment", "B_Moment"):
+        ci = ctx.model.cls(cname)
+        view = protocol.ClassView(ctx, ci)
+        c, fn = view.method("h_q")
+        if fn is None:
+            raise AnalysisError(f"{cname}.h_q vanished")
+        support.check(rep, "C08.R5", view, f"{ci.rel}:{cname}.h_q", ci.rel, "h", "h_q", "q", None, lineno=getattr(fn, "lineno", 0))
     model = ctx.model
     for rel, cname in CLASSES:
         ci = model.cls(cname, rel)
@@ -310,4 +350,13 @@ NEUTRAL = [
     dict(id="c08-n1", canary=True, what="la_c_q with locals", file=FB,
          old="        return self._la_c_l(t, self.l(t, q), self.l_dot(t, q, u)) * self.l_q(\n            t, q\n        ) + self._la_c_l_dot(t, self.l(t, q), self.l_dot(t, q, u)) * self.l_dot_q(\n            t, q, u\n        )",
          new="        l, l_dot = self.l(t, q), self.l_dot(t, q, u)\n        a = self._la_c_l(t, l, l_dot) * self.l_q(t, q)\n        b = self._la_c_l_dot(t, l, l_dot) * self.l_dot_q(t, q, u)\n        return a + b"),
+]
+MUTANTS += [
+    dict(id="c08-r12-orig", canary=True, what="Motor wraps tau(t) into a new array (original defect F50)", file="cardillo/actuators/motor.py",
+         old="        return np.reshape(self.tau(t), self.nla_tau)\n", new="        return np.array([self.tau(t)])\n", expect="C08.R12"),
+]
+MUTANTS += [
+    dict(id="c08-r5-seed", canary=True, what="[seeded by sub-agent] B_Force.h_q: second product-rule term contracts the body-fixed force with J_P_q without rotating it", file="cardillo/forces/force.py",
+         old="        ) + einsum(\"i,ijk->jk\", self.A_IB(t, q) @ self.force(t), self.J_P_q(t, q))\n\n    def export(self, sol_i, **kwargs):\n        r_OP = self.r_OP(sol_i.t, sol_i.q[self.qDOF])\n        A_IB",
+         new="        ) + einsum(\"i,ijk->jk\", self.force(t), self.J_P_q(t, q))\n\n    def export(self, sol_i, **kwargs):\n        r_OP = self.r_OP(sol_i.t, sol_i.q[self.qDOF])\n        A_IB", expect="C08.R5"),
 ]
